@@ -23,6 +23,8 @@ Monitors
                              ambient index, equal neighbours (== merged layer), thickness exactly 0 (first / all / exit), exact quarter / half
                              wave, aoi exactly 0 / 45 / 89.999 (int and float), polarisation in either letter case; batched stacks with
                              index-1 / zero-thickness entries in only some elements
+      stack.frustrated-tir   regime: dense ambient, steep angle, evanescent inner layer(s), propagating exit medium: R + T == 1, == Airy recursion,
+                             zero-thickness insertion (low / high index), partly-evanescent batches == loop
       batched.sizes          class I: every batch size 1 .. 8 (thorough 16) x every layer count 1 .. 8, 1-D and (B,1) / (1,B) / (B,B) batches
       forms.*                class E (argument-form equivalence): integer-valued stacks handed over as python ints in tuples /
                              lists, int8..int64 / uint8 ndarrays, float32, complex, object and mixed containers, wavelength /
@@ -60,9 +62,12 @@ RULE = ('a single-precision warm-up first (config.precision = 32 and float32 sta
         'all thicknesses and the wavelength multiplied by 1e-12..1e12 x random mantissa; SPECIAL VALUES (class H): 12 kinds of coincidence (index '
         'exactly 1 / equal to the ambient / equal neighbours / thickness exactly 0 / exact quarter and half wave / matched exit) x ambient {1.0, 1, 1.2, '
         '1.33, 1.5} x aoi {0, 0.0, 45, 45.0, 89.999, 30.0, 60, 89.0} (kept 1 deg inside the critical angle when a layer is below the ambient index) x '
-        'letter case of the polarisation x list / ndarray / Fortran containers; BATCH SIZES (class I): batch 1..8 (thorough 16) x layers 1..8.  A case is non-trivial unless both '
+        'letter case of the polarisation x list / ndarray / Fortran containers; BATCH SIZES (class I): batch 1..8 (thorough 16) x layers 1..8; FRUSTRATED TIR (regime): ambient 1.3..2, '
+        'aoi 35..86 deg, 2..6 entries with >= 1 inner layer below n0 sin(aoi) (attenuation exponent <= 4), exit medium above it, scalar and partly-evanescent batches.  A case is non-trivial unless both '
         'media of a single interface are equal; distinct = distinct descriptor (all numeric parameters)')
 ASSUMPTIONS = ['the last stack entry is the exit medium (documented usage); its thickness only adds a phase to t',
+               'total internal reflection of a stack is decided by the exit medium alone: an evanescent INNER layer (index below n0 sin(aoi)) with a '
+               'propagating lossless exit medium is inside the domain (R + T = 1); indices within 0.03 of n0 sin(aoi) and gaps with attenuation exponent > 4 are not driven',
                'power transmittance into a lossless exit medium is Re(n_e cos th_e)/(n0 cos th0) |t|^2 for both polarisations',
                'absorbing media are n + i k with k >= 0 (BYU / e^{-i w t} convention used by the module); absorbing exit media, '
                'gain media and angles at or beyond any critical angle of the stack are outside the stated domain',
@@ -86,7 +91,7 @@ REQUIRED = ['snell_aor.law', 'stack.energy-lossless', 'stack.energy-absorbing', 
             'precision32.single-interface', 'precision32.airy-reference', 'precision32.batched-eq-loop', 'precision32.energy',
             'history.airy-reference', 'history.repeat', 'stack.argument-untouched', 'stack.deep',
             'forms.stack', 'forms.scalars', 'forms.call', 'forms.eq-canonical', 'forms.batched', 'forms.fresnel',
-            'stack.unit-invariance', 'stack.special-values', 'batched.sizes']
+            'stack.unit-invariance', 'stack.special-values', 'batched.sizes', 'stack.frustrated-tir']
 
 CTX = None
 TOL = 1e-10          # observed round-off on the pinned tree: <= 1e-13 (stack vs Airy), <= 4e-15 (energy)
@@ -451,6 +456,7 @@ def _run(ctx):
     unit_scales(ctx, tf)           # class G: thickness / wavelength rescaled together
     specials(ctx, tf)              # class H: index exactly 1, thickness exactly 0, exact angles, letter case
     batch_sizes(ctx, tf)           # class I: every batch size x layer count
+    frustrated(ctx, tf)            # regime (pass 5): evanescent inner layer, propagating exit medium
     forms(ctx, tf)
 
     # critical_angle: exercised for reach only, never asserted (argument order ambiguous)
@@ -1133,6 +1139,152 @@ def batch_sizes(ctx, tf):
                                                                                                    'size:batched'),
                                             f'{pol}: r of a batched stack differs from the Airy recursion', desc)
     ctx.note('batch_sizes', f'batch sizes 1..{Bmax} x layers 1..8 x normal / oblique x both polarisations')
+
+
+# --- G. hardening pass 5: frustrated total internal reflection (regime) -----------------------------------------------------
+FTIR_GAP = 0.03       # every index stays this far from n0 sin(theta0): no layer at its own critical angle
+FTIR_ATT = 4.0        # total evanescent attenuation exponent of a case (amplitude e^-4): thin gaps, nothing overflows
+
+
+def _ftir_stack(g, L, kp, wl, low_exit_margin=True):
+    """L entries; at least one INNER layer below kp = n0 sin(theta0) (evanescent), the others on either side of it, the exit
+    medium above it (propagating, cos >= ~0.2); the evanescent thicknesses share a total attenuation exponent <= FTIR_ATT."""
+    st = []
+    ev = [g.random() < 0.4 for _ in range(L - 1)]
+    ev[int(g.integers(0, L - 1))] = True
+    budget = float(g.uniform(0.02, FTIR_ATT)) / sum(ev)
+    for l in range(L - 1):
+        if ev[l]:
+            n = 1.0 if g.random() < 0.25 else float(g.uniform(1.0, kp - FTIR_GAP))
+            q = math.sqrt(kp * kp - n * n)
+            d = 0.0 if g.random() < 0.05 else float(g.uniform(0.05, 1.0)) * budget * wl / (2 * math.pi * q)
+        else:
+            n = float(g.uniform(kp + FTIR_GAP, 4))
+            d = 0.0 if g.random() < 0.1 else float(g.uniform(0, 2)) * wl
+        st.append((n, d))
+    st.append((float(g.uniform(1.02 * kp + FTIR_GAP, 4)), float(g.uniform(0, 2)) * wl))
+    return st
+
+
+def frustrated(ctx, tf):
+    """Regime (hardening pass 5): dense ambient (index 1.3 .. 2), steep angle, one or more INNER layers whose index is below
+    n0 sin(theta0) -- evanescent: optical tunnelling / frustrated total internal reflection -- while the exit medium still carries
+    a propagating wave, i.e. the angle is below total internal reflection of the stack and all layers are lossless.  The energy
+    contract skips (and counts) these calls, so this workload judges them itself: R + T == 1, r and |t| == the Airy recursion
+    (its cosines are complex there), a zero-thickness layer of low (evanescent) or high index at a non-final position changes
+    nothing, a batch in which only SOME elements have an evanescent layer == the per-element loop and conserves energy per
+    element.  Established on the current tree first: 40 000 such calls, deviations <= 1.6e-13 (Airy), 8.3e-15 (energy), 0."""
+    rng = ctx.rng('c17-ftir')
+    mon = 'stack.frustrated-tir'
+    nc = ctx.share(ctx.pick(300, 30000))
+    for it in range(nc):
+        g = np.random.default_rng(ctx.subseed(rng))
+        n0 = [1.5, 2, 1.7][it % 3] if it < 6 else float(g.uniform(1.3, 2.0))
+        aoi = float(g.uniform(max(35.0, math.degrees(math.asin(min(1.0, (1.0 + 2.5 * FTIR_GAP) / n0)))), 86.0))
+        th0 = math.radians(aoi)
+        kp = float(n0) * math.sin(th0)
+        L = 2 + it % 5
+        wl = float(g.uniform(0.3, 1.5))
+        st = _ftir_stack(g, L, kp, wl)
+        ne = st[-1][0]
+        container = CONTAINERS[it % len(CONTAINERS)]
+        n_ev = sum(1 for n, _ in st[:-1] if n < kp)
+        desc = {'wl': 'frustrated-tir', 'stack': [[n, d] for n, d in st], 'layers': L, 'n0': n0, 'aoi': aoi, 'wavelength': wl, 'container': container,
+                'n0_sin_aoi': kp, 'evanescent_layers': n_ev, 'class': f'regime:frustrated-tir:L{L}:evanescent{min(n_ev, 3)}'}
+        ctx.case(desc)
+        arg = as_container(st, container)
+        for pol in 'sp':
+            base = f'C17/stack/{pol}/regime:frustrated-tir'
+            with ctx.guard(base, desc):
+                r, t = tf.multilayer_stack_rt(arg, wl, pol, aoi=aoi, ambient_index=n0)
+                r, t = complex(r), complex(t)
+                rr, tt = R.stack_rt(st, wl, pol, th0, float(n0))
+                Rp, Tp = R.RT(r, t, float(n0), th0, ne)
+                ctx.observe(mon)
+                if not abs(Rp + Tp - 1) <= TOL:
+                    ctx.violation(base + '/energy-lossless', f'{pol}: lossless stack with an evanescent inner layer and a propagating exit medium '
+                                  '(frustrated total internal reflection): R + T != 1', desc, R=Rp, T=Tp, r=r, t=t)
+                    continue
+                er = min(abs(r - rr), abs(r + rr)) if pol == 'p' else abs(r - rr)
+                if not er <= TOL:
+                    ctx.violation(base + '/ne-airy-reference/r', f'{pol}: r of a stack with an evanescent inner layer differs from the Airy recursion',
+                                  desc, got=r, ref=rr)
+                    continue
+                if not abs(abs(t) - abs(tt)) <= TOL * max(1.0, abs(tt)):
+                    ctx.violation(base + '/ne-airy-reference/t', f'{pol}: |t| of a stack with an evanescent inner layer differs from the Airy recursion',
+                                  desc, got=abs(t), ref=abs(tt))
+                    continue
+                # zero-thickness layer at a non-final position: evanescent index (even), propagating index (odd)
+                p = int(g.integers(0, L))
+                nz = float(g.uniform(1.0, kp - FTIR_GAP)) if it % 2 == 0 else float(g.uniform(kp + FTIR_GAP, 4))
+                r0, t0 = tf.multilayer_stack_rt(st[:p] + [(nz, 0.0)] + st[p:], wl, pol, aoi=aoi, ambient_index=n0)
+                ctx.observe(mon)
+                if not (abs(complex(r0) - r) <= TOL and abs(complex(t0) - t) <= TOL * max(1.0, abs(t))):
+                    ctx.violation(base + '/zero-thickness-layer', f'{pol}: a zero-thickness layer at a non-final position changes r or t '
+                                  '(stack with an evanescent inner layer)', desc, position=p, n_inserted=nz, r=[r, complex(r0)], t=[t, complex(t0)])
+        # the converse: every inner layer propagates and a zero-thickness layer BELOW n0 sin(theta0) is inserted (it alone is evanescent)
+        stp = [(float(g.uniform(kp + FTIR_GAP, 4)), float(g.uniform(0, 2)) * wl) for _ in range(L - 1)] + [st[-1]]
+        p = int(g.integers(0, L))
+        nz = float(g.uniform(1.0, kp - FTIR_GAP))
+        descz = dict(desc, stack=[[n, d] for n, d in stp], inserted=[nz, 0.0], position=p, evanescent_layers=0,
+                     **{'class': f'regime:frustrated-tir:zero-thickness-only:L{L}'})
+        ctx.case(descz)
+        for pol in 'sp':
+            base = f'C17/stack/{pol}/regime:frustrated-tir'
+            with ctx.guard(base, descz):
+                r, t = tf.multilayer_stack_rt(stp, wl, pol, aoi=aoi, ambient_index=n0)          # energy: contract (no evanescent layer)
+                r0, t0 = tf.multilayer_stack_rt(stp[:p] + [(nz, 0.0)] + stp[p:], wl, pol, aoi=aoi, ambient_index=n0)
+                r, t = complex(r), complex(t)
+                ctx.observe(mon)
+                if not (abs(complex(r0) - r) <= TOL and abs(complex(t0) - t) <= TOL * max(1.0, abs(t))):
+                    ctx.violation(base + '/zero-thickness-layer', f'{pol}: a zero-thickness layer whose index is below n0 sin(theta0) changes r or t',
+                                  descz, r=[r, complex(r0)], t=[t, complex(t0)])
+    # batched: only some elements of the batch have an evanescent layer
+    nb = ctx.share(ctx.pick(60, 4000))
+    for it in range(nb):
+        g = np.random.default_rng(ctx.subseed(rng))
+        n0 = float(g.uniform(1.3, 2.0))
+        aoi = float(g.uniform(max(35.0, math.degrees(math.asin(min(1.0, (1.0 + 2.5 * FTIR_GAP) / n0)))), 86.0))
+        th0 = math.radians(aoi)
+        kp = n0 * math.sin(th0)
+        L = 2 + it % 4
+        trail = [(3,), (2,), (2, 2), (1,), (5,), (2, 3)][it % 6]
+        wl = float(g.uniform(0.3, 1.5))
+        B = int(np.prod(trail))
+        els = []
+        for b in range(B):
+            if b % 2 == 1 - it % 2 and B > 1:
+                els.append([(float(g.uniform(kp + FTIR_GAP, 4)), float(g.uniform(0, 2)) * wl) for _ in range(L - 1)] +
+                           [(float(g.uniform(1.02 * kp + FTIR_GAP, 4)), float(g.uniform(0, 2)) * wl)])
+            else:
+                els.append(_ftir_stack(g, L, kp, wl))
+        stack = np.moveaxis(np.asarray(els, dtype=float), 0, -1).reshape((L, 2) + trail)
+        desc = {'wl': 'frustrated-tir-batched', 'trail': list(trail), 'layers': L, 'n0': n0, 'aoi': aoi, 'wavelength': wl, 'n0_sin_aoi': kp,
+                'stack': stack.tolist() if stack.size <= 40 else {'shape': list(stack.shape)},
+                'class': f'regime:frustrated-tir:batched:{len(trail)}d:B{B}:L{L}'}
+        ctx.case(desc)
+        for pol in 'sp':
+            base = f'C17/batched/{pol}/regime:frustrated-tir'
+            with ctx.guard(base, desc):
+                r, t = tf.multilayer_stack_rt(stack, wl, pol, aoi=aoi, ambient_index=n0)
+                r, t = np.asarray(r), np.asarray(t)
+                ctx.observe(mon)
+                if r.shape != trail or t.shape != trail:
+                    ctx.violation(base + '/shape', f'batched result shape {r.shape} / {t.shape} != {trail}', desc)
+                    continue
+                rf, tfl = r.reshape(-1), t.reshape(-1)
+                bad = None
+                for b in range(B):
+                    a_, b_ = tf.multilayer_stack_rt(els[b], wl, pol, aoi=aoi, ambient_index=n0)
+                    Rp, Tp = R.RT(complex(rf[b]), complex(tfl[b]), n0, th0, els[b][-1][0])
+                    if not abs(Rp + Tp - 1) <= TOL:
+                        bad = bad or ('energy-lossless', b, Rp + Tp)
+                    elif not (abs(complex(a_) - rf[b]) <= TOL and abs(complex(b_) - tfl[b]) <= TOL * max(1.0, abs(complex(b_)))):
+                        bad = bad or ('ne-loop', b, [complex(a_), complex(b_)])
+                if bad:
+                    ctx.violation(f'{base}/{bad[0]}', f'{pol}: batched stack in which some elements have an evanescent inner layer: ' +
+                                  ('R + T != 1' if bad[0] == 'energy-lossless' else 'differs from the per-element loop'), desc, element=bad[1], value=bad[2])
+    ctx.note('frustrated', {'cases': nc, 'batched': nb, 'index_gap_to_n0_sin_aoi': FTIR_GAP, 'max_attenuation_exponent': FTIR_ATT})
 
 
 # --- E. argument forms ---------------------------------------------------------------------------------------------------
